@@ -1735,6 +1735,293 @@ Proof.
   split; [reflexivity|]. split; [reflexivity|]. eexists. split; reflexivity.
 Qed.
 
+(* ====================================================================== the ping transport, IPv6 *)
+(* ChecksumCombine folds a 16-bit value into a running one's-complement sum *)
+Lemma combine_norm x l : 0 <= x -> is_u16 l -> checksumCombine (oc_norm x) l = oc_norm (x + l).
+Proof.
+  intros Hx Hl. rewrite combine_spec by (try apply oc_norm_u16; assumption).
+  unfold ocadd, oc_norm, is_u16 in *. cbv zeta.
+  destruct (Z.eqb_spec x 0) as [->|Hne].
+  - rewrite !Z.add_0_l. destruct (Z.ltb_spec l 65536); [|lia].
+    destruct (Z.eqb_spec l 0) as [->|Hl0]; [reflexivity|]. Z.div_mod_to_equations; lia.
+  - destruct (Z.eqb_spec (x + l) 0) as [E|_]; [lia|].
+    destruct (Z.ltb_spec ((x - 1) mod 65535 + 1 + l) 65536); Z.div_mod_to_equations; lia.
+Qed.
+
+Lemma pseudo_ws p src dst :
+  bytes_ok src -> bytes_ok dst -> Z.of_nat (length src) <= 131072 -> Z.of_nat (length dst) <= 131072 ->
+  pseudoHeaderChecksum p src dst = oc_norm (ws src + ws dst + ws [0; w8 p]).
+Proof.
+  intros Bs Bd Ls Ld. unfold pseudoHeaderChecksum.
+  pose proof (checksum_fold_ws0 [src; dst; [0; w8 p]]) as F. cbn [fold_left] in F. rewrite F.
+  - f_equal. cbn [sum_ws fold_right]. lia.
+  - repeat (apply Forall_cons; [first [assumption|bytes_tac]|]). apply Forall_nil.
+  - repeat (apply Forall_cons; [first [assumption|cbn [length]; lia]|]). apply Forall_nil.
+Qed.
+
+(* sendPing6 on a well-formed echo request (type 128, code 0, >= 8 bytes): the identifier is
+   overwritten, the checksum field holds the complement of the sum over pseudo-header, header
+   (field zero) and data *)
+Lemma ping6_send_flat r ident x2 x3 i0 i1 q0 q1 rest :
+  bytes_ok (rLocal r) -> bytes_ok (rRemote r) -> (length (rLocal r) <= 16)%nat -> (length (rRemote r) <= 16)%nat ->
+  is_byte q0 -> is_byte q1 -> bytes_ok rest -> 8 + Z.of_nat (length rest) <= 65535 ->
+  let data := 128 :: 0 :: x2 :: x3 :: i0 :: i1 :: q0 :: q1 :: rest in
+  let L := 8 + Z.of_nat (length rest) in
+  let d0 := w8 (ident / 2^8) in
+  let d1 := w8 ident in
+  let ck := xsum_of (rLocal r) (rRemote r) 58 L ([128; 0; 0; 0; d0; d1; q0; q1] ++ rest) in
+  ping6_send r ident data = Some (Some ([128; 0; ck / 256; ck mod 256; d0; d1; q0; q1], rest)) /\ is_u16 ck.
+Proof.
+  intros Bs Bd Ls Ld Hq0 Hq1 Br Hsz data L d0 d1 ck. subst data.
+  unfold ping6_send, icmp_type, icmp_code, icmp_setChecksum, get8, put16, copy_into, set_range, zeros, getFrom.
+  cbn [length Nat.ltb Nat.leb Nat.add upd obind repeat firstn skipn app nth_error].
+  change (negb (128 =? 128) || negb (0 =? 0)) with false. cbv iota.
+  change (w8 (0 / 2 ^ 8)) with 0. change (w8 0) with 0. fold d0 d1.
+  set (h0 := [128; 0; 0; 0; d0; d1; q0; q1]).
+  assert (Bh : bytes_ok h0) by (subst h0 d0 d1; bytes_tac).
+  assert (EL : w16 (Z.of_nat 8 + Z.of_nat (length rest)) = L).
+  { subst L. unfold w16. change (2^16) with 65536. rewrite Z.mod_small; lia. }
+  rewrite EL.
+  pose proof (ws_nonneg _ Bs) as Ws. pose proof (ws_nonneg _ Bd) as Wd.
+  pose proof (ws_nonneg _ Br) as Wr. pose proof (ws_nonneg _ Bh) as Wh.
+  assert (E58 : ws [0; w8 58] = 58) by reflexivity.
+  rewrite pseudo_ws by (try assumption; lia). rewrite E58.
+  rewrite combine_norm by (unfold is_u16; subst L; lia).
+  rewrite (checksum_ws rest) by (try assumption; try (apply oc_norm_u16; subst L; lia); lia).
+  rewrite oc_norm_add by (subst L; lia).
+  rewrite checksum_ws by (try assumption; try (apply oc_norm_u16; subst L; lia); subst h0; cbn [length]; lia).
+  rewrite oc_norm_add by (subst L; lia).
+  assert (EH : ws (h0 ++ rest) = ws h0 + ws rest) by (apply ws_app_even; reflexivity).
+  assert (Eck : lnot16 (oc_norm (ws (rLocal r) + ws (rRemote r) + 58 + L + ws rest + ws h0)) = ck).
+  { subst ck. unfold xsum_of. fold h0. rewrite EH. f_equal. f_equal. lia. }
+  rewrite Eck.
+  assert (Hu : is_u16 ck).
+  { subst ck. unfold xsum_of. fold h0. rewrite EH.
+    match goal with |- is_u16 (lnot16 (oc_norm ?x)) => assert (HT : 0 <= x) by (subst L; lia) end.
+    pose proof (oc_norm_u16 _ HT). unfold lnot16, is_u16 in *. lia. }
+  split; [|exact Hu].
+  assert (Ehl : w8 (ck / 2 ^ 8) = ck / 256 /\ w8 ck = ck mod 256).
+  { unfold w8, is_u16 in *. change (2^8) with 256. split; Z.div_mod_to_equations; lia. }
+  destruct Ehl as [-> ->]. reflexivity.
+Qed.
+
+(* every echo request the ping endpoint sends over IPv6 is a well-formed ICMPv6 packet: checksum
+   over the pseudo-header, the caller's sequence number and data, the endpoint's identifier *)
+Theorem ping6_echo_request_wf r ident x2 x3 i0 i1 q0 q1 rest ttl :
+  length (rLocal r) = 16%nat -> length (rRemote r) = 16%nat -> bytes_ok (rLocal r) -> bytes_ok (rRemote r) ->
+  nth 0 (rLocal r) 0 <> 255 ->
+  0 <= ident < 65536 -> is_byte q0 -> is_byte q1 -> bytes_ok rest ->
+  8 + Z.of_nat (length rest) <= 65535 -> 1 <= ttl < 256 ->
+  let data := 128 :: 0 :: x2 :: x3 :: i0 :: i1 :: q0 :: q1 :: rest in
+  exists icmp frame,
+    ping6_send r ident data = Some (Some (icmp, rest)) /\
+    ipv6_write r icmp [rest] 58 ttl = Some frame /\
+    Rfc.wf_ipv6 false frame = true /\
+    Rfc.view_ip6 frame = Rfc.mkIV (rLocal r) (rRemote r) 58 ttl 0 (icmp ++ rest) /\
+    Rfc.b8 icmp 0 = 128 /\ Rfc.b8 icmp 1 = 0 /\ Rfc.b16 icmp 4 = ident /\
+    skipn 6 (icmp ++ rest) = q0 :: q1 :: rest.
+Proof.
+  intros Ls Ld Bs Bd Hsrc Hid Hq0 Hq1 Br Hsz Httl data.
+  destruct (ping6_send_flat r ident x2 x3 i0 i1 q0 q1 rest Bs Bd ltac:(lia) ltac:(lia) Hq0 Hq1 Br Hsz) as [Hsend Hu].
+  cbv zeta in Hsend, Hu. set (L := 8 + Z.of_nat (length rest)) in *.
+  set (d0 := w8 (ident / 2^8)) in *. set (d1 := w8 ident) in *.
+  set (ck := xsum_of (rLocal r) (rRemote r) 58 L ([128; 0; 0; 0; d0; d1; q0; q1] ++ rest)) in *.
+  set (icmp := [128; 0; ck / 256; ck mod 256; d0; d1; q0; q1]) in *.
+  assert (ELen : w16 (Z.of_nat (length icmp) + vsize [rest]) = L).
+  { subst icmp L. unfold vsize. cbn [length concat]. rewrite app_nil_r. unfold w16. change (2^16) with 65536. rewrite Z.mod_small; lia. }
+  pose proof (ipv6_write_flat r icmp [rest] 58 ttl Ls Ld) as Hw. cbv zeta in Hw. rewrite ELen in Hw. change (w8 58) with 58 in Hw.
+  cbn [concat] in Hw. rewrite app_nil_r in Hw.
+  exists icmp, (ip6_hdr L 58 ttl (rLocal r) (rRemote r) ++ icmp ++ rest).
+  split; [exact Hsend|]. split; [exact Hw|].
+  assert (Ezl : Rfc.zlen (icmp ++ rest) = L) by (subst icmp L; unfold Rfc.zlen; rewrite app_length; cbn [length]; lia).
+  assert (Bd01 : is_byte d0 /\ is_byte d1) by (subst d0 d1; split; apply w8_byte).
+  destruct Bd01 as [Bd0 Bd1].
+  assert (Hicmp : Rfc.wf_icmp6 ttl (rLocal r) (rRemote r) (icmp ++ rest) = true).
+  { unfold Rfc.wf_icmp6. rewrite Ezl.
+    assert (Hs : Rfc.sums_to_ffff (Rfc.pseudo6 (rLocal r) (rRemote r) 58 L ++ icmp ++ rest) = true).
+    { subst icmp ck.
+      change ([128; 0; ?a; ?b; d0; d1; q0; q1] ++ rest) with ([128; 0] ++ a :: b :: ([d0; d1; q0; q1] ++ rest)).
+      change ([128; 0; 0; 0; d0; d1; q0; q1] ++ rest) with ([128; 0] ++ 0 :: 0 :: ([d0; d1; q0; q1] ++ rest)).
+      apply xsum_verifies6; try assumption; try lia; try (subst L; lia); try reflexivity; try bytes_tac;
+        try (apply Forall_app; split; [bytes_tac|assumption]). }
+    rewrite Hs. change (Rfc.b8 (icmp ++ rest) 0) with 128. change (Rfc.b8 (icmp ++ rest) 1) with 0.
+    cbn [Z.eqb orb andb]. cbv zeta.
+    destruct (Z.leb_spec 4 L); [|subst L; lia]. destruct (Z.leb_spec 8 L); [|subst L; lia]. reflexivity. }
+  destruct (wf_ipv6_hdr false L 58 ttl (rLocal r) (rRemote r) (icmp ++ rest) Ls Ld Hsrc
+              ltac:(rewrite Ezl; reflexivity) ltac:(subst L; lia) Httl ltac:(lia)) as [W V].
+  { unfold transport6_ok. exact Hicmp. }
+  split; [exact W|]. split; [exact V|]. split; [reflexivity|]. split; [reflexivity|]. split; [|reflexivity].
+  unfold Rfc.b16, Rfc.b8. subst icmp d0 d1. cbn [nth]. apply be16_rt. exact Hid.
+Qed.
+
+(* the code before 65b8ba4 ([ping6_send_old]) summed the ICMPv6 message alone: every echo request
+   failed verification under the RFC 4443 pseudo-header.  Witness: fe80::1 -> fe80::2, identifier
+   7, sequence number 1, no data *)
+Theorem ping6_no_pseudo_header_old_refuted :
+  exists r ident data icmp pl frame,
+    length (rLocal r) = 16%nat /\ length (rRemote r) = 16%nat /\ bytes_ok data /\
+    ping6_send_old ident data = Some (Some (icmp, pl)) /\
+    ipv6_write r icmp [pl] 58 64 = Some frame /\
+    Rfc.wf_ipv6 false frame = false /\
+    Rfc.sums_to_ffff (icmp ++ pl) = true /\
+    (exists icmp' frame', ping6_send r ident data = Some (Some (icmp', pl)) /\
+       ipv6_write r icmp' [pl] 58 64 = Some frame' /\ Rfc.wf_ipv6 false frame' = true).
+Proof.
+  exists (mkRoute [254;128;0;0;0;0;0;0;0;0;0;0;0;0;0;1] [254;128;0;0;0;0;0;0;0;0;0;0;0;0;0;2] [] [] false),
+         7, [128; 0; 0; 0; 0; 0; 0; 1].
+  eexists. eexists. eexists.
+  split; [reflexivity|]. split; [reflexivity|]. split; [repeat constructor; unfold is_byte; lia|].
+  split; [vm_compute; reflexivity|]. split; [vm_compute; reflexivity|].
+  split; [vm_compute; reflexivity|]. split; [vm_compute; reflexivity|].
+  eexists. eexists. split; [vm_compute; reflexivity|]. split; [vm_compute; reflexivity|]. vm_compute; reflexivity.
+Qed.
+
+(* ====================================================================== neighbour solicitations over Ethernet *)
+Lemma skipn_ok n : forall l, bytes_ok l -> bytes_ok (skipn n l).
+Proof. induction n as [|n IH]; intros [|x l] H; cbn [skipn]; try assumption. apply IH. inversion H; assumption. Qed.
+
+Lemma solicited_node_ok addr : length addr = 16%nat -> bytes_ok addr ->
+  length (solicited_node addr) = 16%nat /\ bytes_ok (solicited_node addr) /\ nth 0 (solicited_node addr) 0 = 255.
+Proof.
+  intros L B. unfold solicited_node. split; [|split; [|reflexivity]].
+  - rewrite app_length, skipn_length, L. reflexivity.
+  - apply Forall_app; split; [bytes_tac|apply skipn_ok, B].
+Qed.
+
+Lemma ipv6_encode_hdr len nh hop src dst : length src = 16%nat -> length dst = 16%nat ->
+  ipv6_encode (zeros 40) (mkIPv6 0 0 len nh hop src dst) = Some (ip6_hdr len nh hop src dst).
+Proof.
+  intros Ls Ld.
+  destruct (len16 _ Ls) as (s0&s1&s2&s3&s4&s5&s6&s7&s8&s9&s10&s11&s12&s13&s14&s15&->).
+  destruct (len16 _ Ld) as (d0&d1&d2&d3&d4&d5&d6&d7&d8&d9&d10&d11&d12&d13&d14&d15&->).
+  rewrite ipv6_encode_flat. reflexivity.
+Qed.
+
+(* the neighbour solicitation ipv6 LinkAddressRequest builds: IPv6 header (hop limit 255, to the
+   solicited-node group of the target) and the ICMPv6 message with a source link-layer address option *)
+Definition ns_body (addr mac : list Z) : list Z := [0; 0; 0; 0] ++ addr ++ [1; 1] ++ mac.
+
+Lemma ndp_solicit_flat addr localAddr mac :
+  length addr = 16%nat -> length localAddr = 16%nat -> length mac = 6%nat ->
+  bytes_ok addr -> bytes_ok localAddr -> bytes_ok mac ->
+  let sn := solicited_node addr in
+  let ck := xsum_of localAddr sn 58 32 ([135; 0] ++ 0 :: 0 :: ns_body addr mac) in
+  ndp_solicit addr localAddr mac =
+    Some (ip6_hdr 32 58 255 localAddr sn ++ [135; 0] ++ (ck / 256) :: (ck mod 256) :: ns_body addr mac) /\ is_u16 ck.
+Proof.
+  intros La Ll Lm Ba Bl Bm sn ck.
+  destruct (solicited_node_ok addr La Ba) as (Lsn & Bsn & _). fold sn in Lsn, Bsn.
+  pose proof (ws_nonneg _ Bl) as Wl. pose proof (ws_nonneg _ Bsn) as Wsn.
+  assert (Bbody : bytes_ok ([135; 0] ++ 0 :: 0 :: ns_body addr mac)).
+  { unfold ns_body. cbn [app]. bytes_tac. apply Forall_app; split; [exact Ba|]. bytes_tac. }
+  pose proof (ws_nonneg _ Bbody) as Wb.
+  assert (Hu : is_u16 ck).
+  { subst ck. unfold xsum_of.
+    match goal with |- is_u16 (lnot16 (oc_norm ?x)) => assert (HT : 0 <= x) by lia end.
+    pose proof (oc_norm_u16 _ HT). unfold lnot16, is_u16 in *. lia. }
+  split; [|exact Hu].
+  destruct (len16 _ La) as (a0&a1&a2&a3&a4&a5&a6&a7&a8&a9&a10&a11&a12&a13&a14&a15&->).
+  destruct (len6 _ Lm) as (m0&m1&m2&m3&m4&m5&->).
+  unfold ndp_solicit. fold sn.
+  unfold icmp_setType, icmp_setChecksum, put16, put8, copy_into, set_range, zeros.
+  cbn [repeat upd obind length Nat.add Nat.leb firstn skipn app].
+  change (w8 135) with 135. change (w8 1) with 1.
+  unfold icmp6_checksum, put8. cbn [length upd obind]. change (w8 0) with 0.
+  change (Z.of_nat 32 + vsize []) with 32.
+  set (h0 := [135; 0; 0; 0; 0; 0; 0; 0; a0; a1; a2; a3; a4; a5; a6; a7; a8; a9; a10; a11; a12; a13; a14; a15; 1; 1; m0; m1; m2; m3; m4; m5]).
+  assert (Eh0 : h0 = [135; 0] ++ 0 :: 0 :: ns_body [a0; a1; a2; a3; a4; a5; a6; a7; a8; a9; a10; a11; a12; a13; a14; a15] [m0; m1; m2; m3; m4; m5]) by reflexivity.
+  assert (Bh : bytes_ok h0) by (rewrite Eh0; exact Bbody).
+  assert (BK : bytes_ok [0; 0; 0; 58]) by bytes_tac.
+  rewrite icmp6_chain; try assumption; try (cbn [length]; lia); try lia; try apply be32_ok;
+    try (unfold be32; cbn [length]; lia); try apply Forall_nil; try (subst h0; cbn [length]; lia).
+  rewrite ws_be32_small by lia. rewrite ws4. cbn [sum_ws fold_right].
+  assert (Eck : lnot16 (oc_norm (ws localAddr + ws sn + 32 + (0 * 256 + 0 + (0 * 256 + 58)) + 0 + ws h0)) = ck).
+  { subst ck. unfold xsum_of. rewrite <- Eh0. f_equal. f_equal. lia. }
+  rewrite Eck. cbn [obind].
+  assert (Ehl : w8 (ck / 2 ^ 8) = ck / 256 /\ w8 ck = ck mod 256).
+  { unfold w8, is_u16 in *. change (2^8) with 256. split; Z.div_mod_to_equations; lia. }
+  destruct Ehl as [-> ->].
+  change (w16 (Z.of_nat 32)) with 32.
+  rewrite ipv6_encode_hdr by assumption. cbn [obind]. reflexivity.
+Qed.
+
+Definition bcast_mac : list Z := [255; 255; 255; 255; 255; 255].
+
+(* a neighbour solicitation sent through the fd-based link (the route LinkAddressRequest builds has a
+   local address and no local link address) is a well-formed Ethernet frame whose source is the
+   NIC's own address, to the broadcast address the code uses, carrying a well-formed solicitation
+   for [addr] with the NIC's address in the source link-layer address option *)
+Theorem ndp_solicit_eth_wf addr localAddr mac :
+  length addr = 16%nat -> length localAddr = 16%nat -> length mac = 6%nat ->
+  bytes_ok addr -> bytes_ok localAddr -> bytes_ok mac ->
+  nth 0 addr 0 <> 255 -> nth 0 localAddr 0 <> 255 -> nth 0 mac 0 mod 2 = 0 ->
+  let r := mkRoute localAddr (solicited_node addr) [] bcast_mac false in
+  exists pkt f,
+    ndp_solicit addr localAddr mac = Some pkt /\
+    eth_write r mac 34525 pkt = Some f /\
+    Rfc.wf_eth false f = true /\
+    Rfc.eth_src f = mac /\ Rfc.eth_dst f = bcast_mac /\ Rfc.eth_type_of f = 34525 /\ skipn 14 f = pkt /\
+    Rfc.view_ip6 pkt = Rfc.mkIV localAddr (solicited_node addr) 58 255 0 (Rfc.ip6_payload pkt) /\
+    Rfc.b8 (Rfc.ip6_payload pkt) 0 = 135 /\ Rfc.sub (Rfc.ip6_payload pkt) 8 16 = addr /\
+    Rfc.sub (Rfc.ip6_payload pkt) 24 8 = [1; 1] ++ mac.
+Proof.
+  intros La Ll Lm Ba Bl Bm Ha Hl Hm r.
+  destruct (ndp_solicit_flat addr localAddr mac La Ll Lm Ba Bl Bm) as [Hns Hu]. cbv zeta in Hns, Hu.
+  destruct (solicited_node_ok addr La Ba) as (Lsn & Bsn & _).
+  set (sn := solicited_node addr) in *.
+  set (ck := xsum_of localAddr sn 58 32 ([135; 0] ++ 0 :: 0 :: ns_body addr mac)) in *.
+  set (m := [135; 0] ++ (ck / 256) :: (ck mod 256) :: ns_body addr mac) in *.
+  set (pkt := ip6_hdr 32 58 255 localAddr sn ++ m) in *.
+  destruct (len16 _ La) as (a0&a1&a2&a3&a4&a5&a6&a7&a8&a9&a10&a11&a12&a13&a14&a15&Ea).
+  destruct (len6 _ Lm) as (m0&m1&m2&m3&m4&m5&Em).
+  assert (Bbody : bytes_ok (ns_body addr mac)).
+  { unfold ns_body. apply Forall_app; split; [bytes_tac|]. apply Forall_app; split; [exact Ba|]. cbn [app]. bytes_tac. }
+  (* the ICMPv6 message *)
+  assert (Hs : Rfc.sums_to_ffff (Rfc.pseudo6 localAddr sn 58 32 ++ m) = true).
+  { subst m ck. apply xsum_verifies6; try assumption; try lia; try reflexivity; bytes_tac. }
+  destruct (lnot16_bytes (65535 - ck) ltac:(unfold is_u16 in *; lia)) as (Bc1 & Bc2 & _).
+  unfold lnot16 in Bc1, Bc2. replace (65535 - (65535 - ck)) with ck in Bc1, Bc2 by lia.
+  assert (Bm' : bytes_ok m) by (subst m; apply Forall_app; split; [bytes_tac|]; constructor; [exact Bc1|constructor; [exact Bc2|exact Bbody]]).
+  assert (Ezl : Rfc.zlen m = 32) by (subst m; rewrite Ea, Em; reflexivity).
+  assert (Hicmp : Rfc.wf_icmp6 255 localAddr sn m = true).
+  { unfold Rfc.wf_icmp6. rewrite Ezl, Hs.
+    set (c1 := ck / 256) in *. set (c2 := ck mod 256) in *. clearbody c1 c2.
+    subst m. rewrite Ea, Em in *. unfold ns_body. cbn [app nth] in Ha |- *.
+    change (Rfc.b8 (135 :: ?t) 0) with 135. change (Rfc.b8 (135 :: 0 :: ?t) 1) with 0.
+    match goal with |- context [Rfc.b8 ?l 8 =? 255] => change (Rfc.b8 l 8) with a0 end.
+    destruct (Z.eqb_spec a0 255) as [|_]; [contradiction|]. reflexivity. }
+  destruct (wf_ipv6_hdr false 32 58 255 localAddr sn m Ll Lsn Hl ltac:(rewrite Ezl; reflexivity)
+              ltac:(lia) ltac:(lia) ltac:(lia)) as [W V].
+  { unfold transport6_ok. exact Hicmp. }
+  fold pkt in W, V.
+  assert (Bhdr : bytes_ok (ip6_hdr 32 58 255 localAddr sn)).
+  { unfold ip6_hdr. apply Forall_app; split; [bytes_tac|]. apply Forall_app; split; assumption. }
+  assert (Bpkt : bytes_ok pkt) by (subst pkt; apply Forall_app; split; assumption).
+  assert (Lpkt : length pkt = 72%nat).
+  { subst pkt. unfold ip6_hdr, Rfc.zlen in *. rewrite !app_length, Ll, Lsn. cbn [length]. lia. }
+  (* the Ethernet frame *)
+  exists pkt. eexists. split; [exact Hns|].
+  unfold eth_write. subst r. cbn [rLocalLink rRemoteLink]. unfold bcast_mac, eth_encode, put16, copy_into, set_range, zeros.
+  rewrite Em. cbn [repeat upd obind length Nat.add Nat.leb firstn skipn app ethType ethSrcAddr ethDstAddr].
+  change (w8 (34525 / 2 ^ 8)) with 134. change (w8 34525) with 221.
+  split; [reflexivity|].
+  match goal with |- Rfc.wf_eth false ?x = true /\ _ => set (f := x) end.
+  assert (Ef : f = [255; 255; 255; 255; 255; 255; m0; m1; m2; m3; m4; m5; 134; 221] ++ pkt) by reflexivity.
+  assert (Ep : Rfc.ip6_payload pkt = m) by (change (Rfc.ip6_payload pkt) with (Rfc.ivPayload (Rfc.view_ip6 pkt)); rewrite V; reflexivity).
+  split; [|split; [reflexivity|split; [reflexivity|split; [reflexivity|split; [reflexivity|]]]]].
+  - unfold Rfc.wf_eth.
+    assert (Hlen : Rfc.zlen f = 86) by (rewrite Ef; unfold Rfc.zlen; rewrite app_length, Lpkt; reflexivity).
+    assert (Hall : Rfc.all_bytes f = true).
+    { apply all_bytes_ok. rewrite Em in Bm. inversion Bm as [|? ? ? B1]; inversion B1 as [|? ? ? B2]; inversion B2 as [|? ? ? B3];
+        inversion B3 as [|? ? ? B4]; inversion B4 as [|? ? ? B5]; inversion B5; subst.
+      rewrite Ef.
+      apply Forall_app; split; [bytes_tac|exact Bpkt]. }
+    rewrite Hlen, Hall. change (Rfc.b8 f 6) with m0. rewrite Em in Hm. cbn [nth] in Hm. rewrite Hm.
+    change (Rfc.eth_type_of f) with 34525. change (skipn 14 f) with pkt.
+    unfold Rfc.wf_net. rewrite (all_bytes_ok _ Bpkt), W. reflexivity.
+  - rewrite V, Ep. split; [reflexivity|]. subst m. rewrite Ea, Em. unfold ns_body. repeat split; reflexivity.
+Qed.
+
 (* ====================================================================== examples *)
 (* the hypotheses of the frame theorems are satisfiable: a SYN with every option, a data segment
    with timestamps and two SACK blocks, both checked by the independent predicate *)
